@@ -49,3 +49,13 @@ func init() {
 		return tuple{iface{}, in.tb.False}
 	})
 }
+
+func init() {
+	// math/rand/v2.IntN(n): an arbitrary value in [0, n)
+	reg("math/rand/v2.IntN", func(in *Exec, _ *frame, a []value) value {
+		n := a[0].(*Term)
+		v := in.freshVar("rand_intn", 64)
+		in.constrainFresh(v, 0, in.tb.And(in.tb.Sle(in.intConst(0), v), in.tb.Slt(v, n)))
+		return v
+	})
+}
